@@ -77,7 +77,7 @@ Families == {
    caps |-> Owns("ManualResetEvent", {}) \cup Through("ManualResetEvent", "ref", {}) \cup Through("WaitForEventFuture", "own", {})],
   [name |-> "timer", params |-> "L",
    kinds |-> {K("TimerService", "L", FALSE, "prim"), K("LocalTimerFuture", "", TRUE, "-"), K("TimerFuture", "", TRUE, "-")},
-   edges |-> {E("TimerService", "ref", "LocalTimerFuture", "-"), E("TimerService", "ref", "TimerFuture", "locksync")},
+   edges |-> {E("TimerService", "ref", "LocalTimerFuture", "-"), E("TimerService", "ref", "TimerFuture", "timertrait")},
    caps |-> Owns("TimerService", {}) \cup Through("TimerService", "ref", {}) \cup Through("LocalTimerFuture", "own", {})
             \cup Through("TimerFuture", "own", {})],
   [name |-> "channel", params |-> "LPB",
@@ -192,7 +192,8 @@ Borrow(tok) ==
 Api(e, tok) ==
   /\ e.from = tok.k /\ e.how = tok.m
   /\ e.cond = "unique" => ~\E x \in tokens : x.k = e.gives
-  /\ e.cond = "locksync" => Facts["Lock|" \o combo.l].sync
+  \* the Send-future API of the timer exists iff rustc says the service implements the `Timer` trait
+  /\ e.cond = "timertrait" => Facts["TimerService|" \o combo.l].timer
   /\ Tok(tok.t, e.gives, "own") \notin tokens
   /\ tokens' = tokens \cup {Tok(tok.t, e.gives, "own")}
   /\ hist' = Append(hist, <<"api", e.from, e.gives, tok.t>>)
